@@ -200,6 +200,11 @@ func (w *Worker) regionMerge(fr *frame, x *ssa.If, cnd *Term, J *ssa.BasicBlock)
 		}
 		phis = append(phis, p)
 	}
+	// Values defined in blocks that dominate J can be used after J without a
+	// phi; if the region re-executes such a block (loops: the If's own block
+	// and the loop header) their env slots are merge outputs too.
+	domSlots := w.domSlots(fr, J)
+	envSnap := append([]Value{}, fr.env...)
 	var outs []regOutcome
 	queue := [][]int{{}}
 	fail := false
@@ -224,6 +229,7 @@ func (w *Worker) regionMerge(fr *frame, x *ssa.If, cnd *Term, J *ssa.BasicBlock)
 		w.solver.Push()
 		var o regOutcome
 		aborted := false
+		copy(fr.env, envSnap)
 		func() {
 			defer func() {
 				if r := recover(); r != nil {
@@ -245,6 +251,7 @@ func (w *Worker) regionMerge(fr *frame, x *ssa.If, cnd *Term, J *ssa.BasicBlock)
 						w.rollback(mark)
 						w.truncPC(pcMark)
 						w.solver.Pop()
+						copy(fr.env, envSnap)
 						restore()
 						panic(r)
 					default:
@@ -283,6 +290,9 @@ func (w *Worker) regionMerge(fr *frame, x *ssa.If, cnd *Term, J *ssa.BasicBlock)
 				for i, p := range phis {
 					o.phis[i] = w.get(fr, p.Edges[pi])
 				}
+			}
+			for _, sl := range domSlots {
+				o.phis = append(o.phis, fr.env[sl])
 			}
 		}()
 		if len(fr.defers) != baseDefers || len(w.inputs) != baseInputs || w.gor != baseGor || len(w.regions) != baseRegions {
@@ -323,6 +333,7 @@ func (w *Worker) regionMerge(fr *frame, x *ssa.If, cnd *Term, J *ssa.BasicBlock)
 		}
 	}
 	restore()
+	copy(fr.env, envSnap)
 	if fail {
 		return false
 	}
@@ -374,9 +385,36 @@ func (w *Worker) regionMerge(fr *frame, x *ssa.If, cnd *Term, J *ssa.BasicBlock)
 	for i, p := range phis {
 		w.setv(fr, p, g.phis[i])
 	}
+	for i, sl := range domSlots {
+		fr.env[sl] = g.phis[len(phis)+i]
+	}
 	fr.block = J
 	fr.prev = origBlock
 	fr.skipPhi = true
 	w.RegionsMerged++
 	return true
+}
+
+// domSlots: env slots of the values defined in blocks that strictly dominate J
+// or equal the If block chain (candidates for use after J without a phi).
+func (w *Worker) domSlots(fr *frame, J *ssa.BasicBlock) []int {
+	key := J
+	if sl, ok := w.domSlotCache[key]; ok {
+		return sl
+	}
+	var sl []int
+	for b := J.Idom(); b != nil; b = b.Idom() {
+		for _, in := range b.Instrs {
+			if v, ok := in.(ssa.Value); ok {
+				if i, ok := fr.info.idx[v]; ok {
+					sl = append(sl, i)
+				}
+			}
+		}
+	}
+	if w.domSlotCache == nil {
+		w.domSlotCache = map[*ssa.BasicBlock][]int{}
+	}
+	w.domSlotCache[key] = sl
+	return sl
 }
